@@ -133,6 +133,13 @@ func (x *Exec) runTop() {
 		f.params = append(f.params, v)
 	}
 	x.topParams = f.params
+	if len(x.W.Contracts.TypeInvs) > 0 {
+		for i, p := range fn.Params {
+			for _, fact := range x.typeInvFacts(p.Type(), f.params[i].T, x.entry) {
+				x.S.Assert(fact)
+			}
+		}
+	}
 	ctx := f.contractCtx(x.entry)
 	ctx.Lookup = nil
 	for _, r := range fc.Requires {
